@@ -112,11 +112,13 @@ func (e *Enc) call(fr *Frame, instr ssa.Instruction, c *ssa.CallCommon, _ types.
 	if _, ok := c.Value.(*ssa.Builtin); ok {
 		return e.builtin(fr, instr, c)
 	}
-	if cs.static == nil && !cs.invoke {
-		if fv, ok := e.val(fr, c.Value).(*FuncV); ok && fv.Fn != nil {
-			cs.fv = fv
-			cs.static = fv.Fn
-			cs.key = funcKey(fv.Fn)
+	if !cs.invoke {
+		if _, isFn := c.Value.(*ssa.Function); !isFn {
+			if fv, ok := e.val(fr, c.Value).(*FuncV); ok && fv.Fn != nil {
+				cs.fv = fv
+				cs.static = fv.Fn
+				cs.key = funcKey(fv.Fn)
+			}
 		}
 	}
 	// effect-free callees: no argument evaluation at all
@@ -931,11 +933,13 @@ func (e *Enc) deferInstr(fr *Frame, x *ssa.Defer) {
 	if _, ok := x.Call.Value.(*ssa.Builtin); ok {
 		return
 	}
-	if cs.static == nil && !cs.invoke {
-		if fv, ok := e.val(fr, x.Call.Value).(*FuncV); ok && fv.Fn != nil {
-			cs.fv = fv
-			cs.static = fv.Fn
-			cs.key = funcKey(fv.Fn)
+	if !cs.invoke {
+		if _, isFn := x.Call.Value.(*ssa.Function); !isFn {
+			if fv, ok := e.val(fr, x.Call.Value).(*FuncV); ok && fv.Fn != nil {
+				cs.fv = fv
+				cs.static = fv.Fn
+				cs.key = funcKey(fv.Fn)
+			}
 		}
 	}
 	e.evalArgs(fr, cs)
